@@ -257,7 +257,7 @@ def to_str(I, v):
     if v is None or isinstance(v, (bool, int, float)):
         return str(v)
     if is_sym(v):
-        if v.k == 'str':
+        if v.k in ('str', 'atom'):
             return v
         if v.k == 'int':
             I.ctx.trust('str(int): z3 int.to.str for non-negative, "-"+int.to.str(-x) otherwise')
@@ -374,14 +374,18 @@ def _oracle_json_valid(s):
 
 def oracle_seeds():
     """arguments on which the real function is known to answer True (valid JSON texts of various lengths)"""
-    return {JSON_VALID.name(): ['{}', '[]', '0', '""'] + ['[' + ' ' * n + ']' for n in (1020, 1023, 1030, 2044, 2047, 2050, 4092, 4095, 4100)],
+    return {**EXTRA_SEEDS, JSON_VALID.name(): ['{}', '[]', '0', '""'] + ['[' + ' ' * n + ']' for n in (1020, 1023, 1030, 2044, 2047, 2050, 4092, 4095, 4100)],
             INT_OK.name(): [' 7', '+7', '07', '0_7', '7\n', ' -1 ', '123\n', '1-2']}
 
 
 # uninterpreted functions that stand for a real python function: used ONLY to steer counter-models and cross-check
 # models towards what CPython really does (never in the proof direction)
+EXTRA_ORACLES = {}
+EXTRA_SEEDS = {}
+
+
 def oracles():
-    return {INT_OK.name(): (INT_OK, _oracle_int_ok), INT_VAL.name(): (INT_VAL, _oracle_int_val),
+    return {**EXTRA_ORACLES, INT_OK.name(): (INT_OK, _oracle_int_ok), INT_VAL.name(): (INT_VAL, _oracle_int_val),
             JSON_VALID.name(): (JSON_VALID, _oracle_json_valid),
             SPLIT_BEFORE.name(): (SPLIT_BEFORE, lambda s, sep: s.split(sep)[0] if sep in s else None),
             SPLIT_AFTER.name(): (SPLIT_AFTER, lambda s, sep: s.split(sep, 1)[1] if sep in s else None)}
@@ -573,9 +577,8 @@ def dict_method(I, d, name, args, kw):
     if name == 'get':
         k = args[0]
         default = args[1] if len(args) > 1 else None
-        if is_sym(k):
-            return dict_get_symkey(I, d, k, default)
-        if I.ctx.guards and I._key(k) in d.e and d.e[k][0] is not True:
+        k = I._key(k, d)
+        if I.ctx.guards and k in d.e and d.e[k][0] is not True:
             g, v = d.e[k]
             return ite_value(g, v, default)
         if I.dict_present(d, k):
@@ -610,7 +613,7 @@ def dict_method(I, d, name, args, kw):
             I.dict_set(d, k, v)
         return None
     if name == 'setdefault':
-        k = args[0]
+        k = I._key(args[0], d)
         if I.dict_present(d, k):
             return d.e[k][1]
         v = args[1] if len(args) > 1 else None
@@ -912,15 +915,8 @@ def format_value(I, v, conversion, spec):
 # ------------------------------------------------------------------------------------------- containers
 def getitem(I, c, k):
     if isinstance(c, PDict):
-        if is_sym(k):
-            keys = I.dict_keys_now(c)
-            conds = [as_z3_bool(I.py_eq(k, kk)) for kk in keys]
-            none = z3.And(*[z3.Not(x) for x in conds]) if conds else z3.BoolVal(True)
-            i = I.ctx.choose(conds + [none])
-            if i < len(keys):
-                return c.e[keys[i]][1]
-            I.raise_(KeyError, k)
-        if I.ctx.guards and I._key(k) in c.e and c.e[k][0] is not True:
+        k = I._key(k, c)
+        if I.ctx.guards and k in c.e and c.e[k][0] is not True:
             # read under a guard of an entry with symbolic presence: value is meaningful only where present
             return c.e[k][1]
         return I.dict_get(c, k)
@@ -1043,9 +1039,8 @@ def delitem(I, c, k):
 
 def contains(I, c, x):
     if isinstance(c, PDict):
-        if is_sym(x):
-            keys = I.dict_keys_now(c)
-            return sym_or(*[I.py_eq(x, k) for k in keys])
+        if is_sym(x) or any(is_sym(kk) for kk in c.e):
+            return sym_or(*[sym_and(I.py_eq(x, kk), True if c.e[kk][0] is True else Sym(c.e[kk][0], 'bool')) for kk in c.e])
         k = I._key(x)
         if k not in c.e:
             return False
@@ -1689,6 +1684,21 @@ def m_re_compile(I, args, kw):
     if any(is_sym(a) for a in args):
         raise Unsupported('re.compile of symbolic pattern')
     return _re.compile(*args, **kw)
+
+
+# =========================================================================================== uuid
+import uuid as _uuid
+
+
+@model(_uuid.uuid4)
+def m_uuid4(I, args, kw):
+    """a fresh identifier: an atom different from every atom seen so far on this path"""
+    I.ctx.trust('uuid.uuid4(): a fresh string different from every identifier already in use')
+    a = I.ctx.fresh('uuid', 'atom')
+    for b in I.ctx.atoms:
+        I.ctx.assume(a.t != b.t)
+    I.ctx.atoms.append(a)
+    return a
 
 
 # =========================================================================================== with
